@@ -88,6 +88,20 @@ class Check:
         self.obs.append(o)
         return bool(ok)
 
+    # private attributes whose NAME is read from the code (role -> name when the known findings were accepted)
+    ACCEPTED_ROLE_NAMES = {'waiting-future': '_waiting_future'}
+
+    def _role_neutral(self, text: str) -> str:
+        """Replace the attribute that currently plays a role, and the name it had when findings were accepted, by the role itself."""
+        try:
+            from .props.common import waiting_future_key
+            cur = waiting_future_key(self.prog).split('.', 1)[1]
+        except Exception:  # noqa: BLE001
+            cur = self.ACCEPTED_ROLE_NAMES['waiting-future']
+        for nm in {cur, self.ACCEPTED_ROLE_NAMES['waiting-future']}:
+            text = text.replace(f'self.{nm}', 'self.<waiting-future>')
+        return text
+
     def _canon_reduced(self, func: Optional[FuncInfo], expr: str):
         """reduced_key with the callee's receiver canonicalised in ``func`` (local aliases, accessors): a known finding
         keeps its identity when the receiver is spelled through a local or an accessor."""
@@ -145,7 +159,8 @@ class Check:
                 # try/else): same rule, function and kind, same callee, same handler context
                 for i, k in enumerate(mine):
                     if all(k.get(f) == getattr(o, f) for f in ('rule', 'construct', 'kind')) and (
-                            reduced_key(k.get('expr', '')) == reduced_key(o.expr) or self._canon_reduced(o.func, k.get('expr', '')) == self._canon_reduced(o.func, o.expr)):
+                            reduced_key(k.get('expr', '')) == reduced_key(o.expr) or self._canon_reduced(o.func, k.get('expr', '')) == self._canon_reduced(o.func, o.expr)
+                            or self._canon_reduced(o.func, self._role_neutral(k.get('expr', ''))) == self._canon_reduced(o.func, self._role_neutral(o.expr))):
                         hit = (i, k)
                         break
             if hit is not None:
@@ -242,7 +257,9 @@ def reduced_key(expr: str):
         if isinstance(val, ast.Call):
             callee = norm(val.func)
         elif isinstance(node, ast.Assign):
-            callee = 'assign ' + norm(node.targets[0])
+            t0 = node.targets[0]
+            # for a store into a container the identity of the construct is the container, not how the index is spelled
+            callee = 'assign ' + (norm(t0.value) + '[...]' if isinstance(t0, ast.Subscript) else norm(t0))
     except SyntaxError:
         pass
     ctx = ''
